@@ -951,6 +951,17 @@ class Executor:
                             raise Abort()
                     else:
                         env[dest] = Ptr(va.reg, simp(z3.If(cv, bv(va.off, 64), bv(vb.off, 64))))
+                elif isinstance(va, float) and isinstance(vb, float):
+                    # concrete floating-point alternatives under a symbolic condition: fork (floating-point cells stay concrete)
+                    ft = self.feasible(st.pc, cv); ff = self.feasible(st.pc, z3.Not(cv))
+                    if ft and ff:
+                        self.stats['forks'] += 1; other = st.clone(); other.pc.append(z3.Not(cv)); other.frames[-1]['env'][dest] = vb; work.append(other)
+                    if ft:
+                        st.pc.append(cv); env[dest] = va
+                    elif ff:
+                        st.pc.append(z3.Not(cv)); env[dest] = vb
+                    else:
+                        raise Abort()
                 elif isinstance(va, (list, float, FuncPtr)) or isinstance(vb, (list, float, FuncPtr)):
                     raise Unmodelled('select on aggregate/float with symbolic condition')
                 else:
@@ -1145,7 +1156,7 @@ class Executor:
         if callee in ('memcpy', 'memmove'):
             n = self.concretize(st, args[2], work); self.memcpy(st, args[0], args[1], n); cont(args[0]); return
         if callee == 'memset':
-            self._memset(st, args[0], args[1], self.concretize(st, args[2], work)); cont(args[0]); return
+            self._memset_at(st, args[0], args[1], self.concretize(st, args[2], work), work); cont(args[0]); return
         if callee == 'memcmp' or callee == 'bcmp':
             n = self.concretize(st, args[2], work); res = 0
             for i in range(n):
@@ -1185,6 +1196,12 @@ class Executor:
             raise Unmodelled('call depth > 200')
         st.frames.append({'func': callee, 'block': f.entry, 'idx': 0, 'prev': None, 'env': nenv})
 
+    def _memset_at(self, st, p, c, n, work):
+        if n != 0 and isinstance(p, Ptr) and p.reg is not None and is_sym(simp(p.off)):
+            self._chk(st, p, n, 'memset')
+            p = Ptr(p.reg, self.concretize(st, p.off, work, maxvals=64))
+        self._memset(st, p, c, n)
+
     def _memset(self, st, p, c, n):
         if n == 0:
             return
@@ -1209,7 +1226,7 @@ class Executor:
         if callee.startswith('llvm.memcpy') or callee.startswith('llvm.memmove'):
             self.memcpy(st, args[0], args[1], self.concretize(st, args[2], work)); cont(); return
         if callee.startswith('llvm.memset'):
-            self._memset(st, args[0], args[1], self.concretize(st, args[2], work)); cont(); return
+            self._memset_at(st, args[0], args[1], self.concretize(st, args[2], work), work); cont(); return
         if callee.startswith(('llvm.lifetime', 'llvm.dbg', 'llvm.assume', 'llvm.experimental.', 'llvm.prefetch', 'llvm.stackrestore', 'llvm.invariant', 'llvm.va_', 'llvm.donothing')):
             cont(); return
         if callee.startswith('llvm.stacksave'):
